@@ -9,9 +9,13 @@ import (
 	"context"
 	"net/url"
 	"sync"
+	"time"
 
 	"github.com/ory/fosite"
 	"github.com/ory/fosite/compose"
+	"github.com/ory/fosite/handler/oauth2"
+	"github.com/ory/fosite/handler/openid"
+	"github.com/ory/fosite/token/jwt"
 	"github.com/ory/fosite/zz_verif_h/world"
 	"github.com/ory/fosite/zz_verif_h/zz"
 )
@@ -73,6 +77,7 @@ func flows(w *world.World, tag string) {
 	if w.Cfg.GetJWKSFetcherStrategy(w.Ctx) == nil {
 		panic("no JWKS fetcher " + tag)
 	}
+	allGetters(w.Cfg, w.Ctx)
 }
 
 func watch(w *world.World) {
@@ -123,3 +128,106 @@ func ZZ_C19_shared_race() {
 }
 
 var _ = context.Background
+
+// allGetters calls every getter of the shared configuration (requests call them at will; the default of an
+// unset field must not be written back into the shared object without synchronisation).
+func allGetters(c *fosite.Config, ctx context.Context) {
+	_, _ = c.GetGlobalSecret(ctx)
+	_ = c.GetUseLegacyErrorFormat(ctx)
+	_, _ = c.GetRotatedGlobalSecrets(ctx)
+	_ = c.GetHMACHasher(ctx)
+	_ = c.GetAuthorizeEndpointHandlers(ctx)
+	_ = c.GetTokenEndpointHandlers(ctx)
+	_ = c.GetTokenIntrospectionHandlers(ctx)
+	_ = c.GetDeviceEndpointHandlers(ctx)
+	_ = c.GetRevocationHandlers(ctx)
+	_ = c.GetHTTPClient(ctx)
+	_ = c.GetSecretsHasher(ctx)
+	_ = c.GetTokenURLs(ctx)
+	_ = c.GetFormPostHTMLTemplate(ctx)
+	_ = c.GetMessageCatalog(ctx)
+	_ = c.GetResponseModeHandlerExtension(ctx)
+	_ = c.GetSendDebugMessagesToClients(ctx)
+	_ = c.GetIDTokenIssuer(ctx)
+	_ = c.GetGrantTypeJWTBearerIssuedDateOptional(ctx)
+	_ = c.GetGrantTypeJWTBearerIDOptional(ctx)
+	_ = c.GetGrantTypeJWTBearerCanSkipClientAuth(ctx)
+	_ = c.GetEnforcePKCE(ctx)
+	_ = c.GetEnablePKCEPlainChallengeMethod(ctx)
+	_ = c.GetEnforcePKCEForPublicClients(ctx)
+	_ = c.GetSanitationWhiteList(ctx)
+	_ = c.GetOmitRedirectScopeParam(ctx)
+	_ = c.GetAccessTokenIssuer(ctx)
+	_ = c.GetJWTScopeField(ctx)
+	_ = c.GetAllowedPrompts(ctx)
+	_ = c.GetScopeStrategy(ctx)
+	_ = c.GetAudienceStrategy(ctx)
+	_ = c.GetAuthorizeCodeLifespan(ctx)
+	_ = c.GetIDTokenLifespan(ctx)
+	_ = c.GetAccessTokenLifespan(ctx)
+	_ = c.GetVerifiableCredentialsNonceLifespan(ctx)
+	_ = c.GetRefreshTokenLifespan(ctx)
+	_ = c.GetDeviceAndUserCodeLifespan(ctx)
+	_ = c.GetBCryptCost(ctx)
+	_ = c.GetJWKSFetcherStrategy(ctx)
+	_ = c.GetTokenEntropy(ctx)
+	_ = c.GetRedirectSecureChecker(ctx)
+	_ = c.GetRefreshTokenScopes(ctx)
+	_ = c.GetMinParameterEntropy(ctx)
+	_ = c.GetJWTMaxDuration(ctx)
+	_ = c.GetClientAuthenticationStrategy(ctx)
+	_ = c.GetDisableRefreshTokenValidation(ctx)
+	_ = c.GetPushedAuthorizeEndpointHandlers(ctx)
+	_ = c.GetPushedAuthorizeRequestURIPrefix(ctx)
+	_ = c.GetPushedAuthorizeContextLifespan(ctx)
+	_ = c.EnforcePushedAuthorize(ctx)
+	_ = c.GetDeviceVerificationURL(ctx)
+	_ = c.GetDeviceAuthTokenPollingInterval(ctx)
+	_ = c.GetUserCodeLength(ctx)
+	_ = c.GetUserCodeSymbols(ctx)
+}
+
+// ZZ_C19_clone_independence: the refresh grant (and every handler that works on a stored request) mutates a
+// CLONE of the stored session; for each session type the library ships, writing an expiry, a claim or a header
+// into the clone leaves the original untouched. (Sequential lemma: a shared map between clone and original is
+// what turns two requests on one grant into a data race.)
+func ZZ_C19_clone_independence() {
+	kind := zz.Choice("session-type", 3)
+	t0 := time.Unix(zz.Int("t0", 1600000000, 1900000000), 0)
+	t1 := time.Unix(zz.Int("t1", 1600000000, 1900000000), 0)
+	zz.Assume(!t0.Equal(t1))
+	var orig, clone fosite.Session
+	switch kind {
+	case 0:
+		s := &fosite.DefaultSession{Subject: "peter", Username: "peter", Extra: map[string]interface{}{"k": "v"}}
+		s.SetExpiresAt(fosite.AccessToken, t0)
+		orig, clone = s, s.Clone()
+		clone.(*fosite.DefaultSession).Extra["k"] = "changed"
+		clone.SetExpiresAt(fosite.AccessToken, t1)
+		zz.Assert(s.Extra["k"] == "v", "clone: Extra of the original untouched")
+	case 1:
+		s := &openid.DefaultSession{Claims: &jwt.IDTokenClaims{Subject: "peter", Extra: map[string]interface{}{"k": "v"}}, Headers: &jwt.Headers{Extra: map[string]interface{}{"h": "v"}}, Subject: "peter"}
+		s.SetExpiresAt(fosite.AccessToken, t0)
+		orig, clone = s, s.Clone()
+		c := clone.(*openid.DefaultSession)
+		c.Claims.Extra["k"] = "changed"
+		c.Headers.Extra["h"] = "changed"
+		clone.SetExpiresAt(fosite.AccessToken, t1)
+		zz.Assert(s.Claims.Extra["k"] == "v" && s.Headers.Extra["h"] == "v", "clone: claims and headers of the original untouched")
+	case 2:
+		s := &oauth2.JWTSession{JWTClaims: &jwt.JWTClaims{Subject: "peter", Extra: map[string]interface{}{"k": "v"}}, JWTHeader: &jwt.Headers{Extra: map[string]interface{}{"h": "v"}}, Subject: "peter"}
+		s.SetExpiresAt(fosite.AccessToken, t0)
+		orig, clone = s, s.Clone()
+		c := clone.(*oauth2.JWTSession)
+		c.JWTClaims.Extra["k"] = "changed"
+		c.JWTHeader.Extra["h"] = "changed"
+		clone.SetExpiresAt(fosite.AccessToken, t1)
+		zz.Assert(s.JWTClaims.Extra["k"] == "v" && s.JWTHeader.Extra["h"] == "v", "clone: claims and headers of the original untouched")
+	}
+	zz.Assert(orig.GetExpiresAt(fosite.AccessToken).Equal(t0), "clone: an expiry written into the clone does not reach the original")
+	zz.Assert(clone.GetExpiresAt(fosite.AccessToken).Equal(t1), "clone: the clone took the write")
+	clone.SetExpiresAt(fosite.RefreshToken, t1)
+	zz.Assert(orig.GetExpiresAt(fosite.RefreshToken).IsZero(), "clone: a NEW expiry key written into the clone does not appear in the original")
+	zz.Assert(clone.GetSubject() == "peter" && orig.GetSubject() == "peter", "clone: subject kept")
+	zz.Cover("clone:independent", true)
+}
